@@ -1303,7 +1303,7 @@ scan_manifest(CPPManifest *manifest) {
 
     CPPExpression *expr = manifest->_expr;
     CPPExpression::Result result = expr->evaluate();
-    if (result._type == CPPExpression::RT_integer) {
+    if (result.fits_int()) {
       // We have an integer-valued expression.
       imanifest._flags |= InterrogateManifest::F_has_int_value;
       imanifest._int_value = result.as_integer();
@@ -3212,7 +3212,7 @@ define_enum_type(InterrogateType &itype, CPPEnumType *cpptype) {
     if (element->_initializer != nullptr) {
       CPPExpression::Result result = element->_initializer->evaluate();
 
-      if (result._type == CPPExpression::RT_error) {
+      if (!result.fits_int()) {
         nout << "enum value ";
         element->output(nout, 0, &parser, true);
         nout << " has invalid definition!\n";
@@ -3252,7 +3252,7 @@ define_array_type(InterrogateType &itype, CPPArrayType *cpptype) {
     itype._array_size = -1;
   } else {
     CPPExpression::Result result = cpptype->_bounds->evaluate();
-    if (result._type == CPPExpression::RT_integer) {
+    if (result.fits_int()) {
       itype._array_size = result.as_integer();
     } else {
       // We don't know how to evaluate the bound; the size is unknown.
